@@ -127,10 +127,14 @@ def gen_event(rng, idx, opts):
     else:
         L.append("DTSTART:" + ds.strftime("%Y%m%dT%H%M%SZ"))
     nr = rng.choice([0, 1, 1, 1, 2])
+    if opts.get("max_rules") is not None:
+        nr = min(nr, opts["max_rules"])
     rules = []
     for _ in range(nr):
         r = rulegen.gen_rule(rng, is_date, valid=True)
         r.pop("bysetpos", None)
+        if opts.get("no_subdaily") and r["freq"] in ("HOURLY", "MINUTELY", "SECONDLY"):
+            r = {"freq": "DAILY", "interval": r.get("interval", 1)}
         if opts.get("cheap_rules") and r["freq"] in ("HOURLY", "MINUTELY", "SECONDLY"):
             # sparse sub-daily scans cost seconds per stream; the parser does not care
             r = {"freq": r["freq"], "interval": r.get("interval", 1)}
